@@ -3,6 +3,7 @@ package harness
 import (
 	"fmt"
 	"os"
+	"path/filepath"
 	"strings"
 	"time"
 
@@ -454,6 +455,99 @@ func c04Rotation(c *Ctx) {
 	}
 }
 
+// c04LongFollow: a follow that lasts 12 s (four of the follower's 3 s checks) with NO rotation; the followed path is
+// the file itself, a symbolic link to it (current.log -> app-2026-10-05.log), a chain of two links, or a relative
+// path; a line is appended every 700 ms.  Every line is delivered once and in order.
+func c04LongFollow(c *Ctx) {
+	for _, kind := range []string{"regular", "symlink", "symlink-chain", "relative-symlink"} {
+		kind := kind
+		target := fmt.Sprintf("%s/c04-long-%d-%s-app-2026-10-05.log", Scratch(), c.Shard, kind)
+		path := target
+		sc := &explore.Scenario{Name: "c04-long-follow", Params: "followed path: " + kind, Agg: "c04-long-follow", MaxSteps: 1000000, Horizon: 10 * time.Minute, Demotion: true}
+		sc.Run = func(cfg vrt.Config) (string, string, vrt.Result) {
+			var viol, out string
+			res := vrt.Run(cfg, func() {
+				args := DefaultArgs()
+				args.Logger = "none"
+				args.LogLevel = "error"
+				StartEnv(source.Server, &args, nil)
+				if err := os.WriteFile(target, []byte("old1\nold2\n"), 0o644); err != nil {
+					panic(err)
+				}
+				link := strings.TrimSuffix(target, "app-2026-10-05.log") + "current.log"
+				os.Remove(link)
+				os.Remove(link + ".2")
+				switch kind {
+				case "symlink":
+					os.Symlink(target, link)
+					path = link
+				case "relative-symlink":
+					os.Symlink(filepath.Base(target), link)
+					path = link
+				case "symlink-chain":
+					os.Symlink(target, link+".2")
+					os.Symlink(link+".2", link)
+					path = link
+				}
+				cat := vrt.Make[struct{}]("catLimiter", 2)
+				tail := vrt.Make[struct{}]("tailLimiter", 2)
+				s := NewServerSession("follower", "verifuser", cat, tail)
+				vrt.Go("pump", func() { s.Pump(32 * 1024) })
+				s.H.Write(WireCommand("tail " + path + " regex:noop "))
+				vrt.Sleep("follow", time.Second/2)
+				var want []string
+				for i := 1; i <= 17; i++ {
+					f, err := os.OpenFile(target, os.O_WRONLY|os.O_APPEND, 0o644)
+					if err != nil {
+						panic(err)
+					}
+					l := fmt.Sprintf("line%02d", i)
+					f.Write([]byte(l + "\n"))
+					f.Close()
+					want = append(want, l)
+					vrt.Sleep("writer", 700*time.Millisecond)
+				}
+				vrt.Sleep("deliver", 3*time.Second)
+				s.H.Shutdown()
+				s.Done.Recv("wait")
+				var texts []string
+				for _, m := range s.Lines() {
+					if f := strings.SplitN(m, "|", 6); len(f) == 6 {
+						texts = append(texts, strings.TrimSuffix(f[5], "\n"))
+					}
+				}
+				out = fmt.Sprintf("%d lines", len(texts))
+				if strings.Join(texts, ",") != strings.Join(want, ",") {
+					viol = fmt.Sprintf("a follow of a %s path over 12 s, one line appended every 700 ms, nothing rotated, an eager consumer: delivered %v, want each of the %d appended lines once and in order", kind, texts, len(want))
+				}
+			})
+			if res.Fail != nil {
+				return "fail:" + res.Fail.Kind, res.Fail.Error(), res
+			}
+			return out, viol, res
+		}
+		sc.Filter = func(pt *vrt.Point, alt int) bool {
+			if pt.Alts[alt].Kind != vrt.AltRun {
+				return true
+			}
+			switch pt.Infos[alt].Kind {
+			case "wgadd", "wgwait", "lock", "unlock":
+				return false
+			}
+			return true
+		}
+		c.Explore(sc, 0, func(msg string, v *explore.Violation) string {
+			switch {
+			case strings.HasPrefix(msg, "panic"):
+				return "panic"
+			case strings.HasPrefix(msg, "deadlock"):
+				return "deadlock"
+			}
+			return "appended-lines-lost-in-a-long-follow"
+		})
+	}
+}
+
 // c04ManyRotations: one follow lives through a dozen rotations (a daily rotated log followed for two weeks): after
 // every one of them the lines appended 8 s later are delivered.  Canonical schedule (a long execution).
 func c04ManyRotations(c *Ctx) {
@@ -589,7 +683,7 @@ func init() {
 		Level: "model_checking",
 		Rule: "stateless exploration of all schedules within a deviation bound of the real TailFile reader following a real file while a writer goroutine appends and a consumer receives: appended text of 1-3 lines over {a, bb, é} " +
 			"in every composition into <=2 (quick) / <=3 (thorough) write() calls (splits inside a line and inside the 2-byte character), initial content empty or 'old\\n', filter regex none/'a', delivery queue capacity 100 with an eager consumer or 1 with a consumer that only " +
-			"receives at the end, optional 150 ms writer pause; two followed files delivering into one shared queue (capacity 1, 2, 100); a whole tail session whose file is rotated (truncated in place / renamed and re-created) 1, 5 or 7 s into the follow, lines appended 8 s later; one follow across 12 rotations; plus (canonical schedule) histories of 30..450 delivered lines followed by 1 or 3 lines dropped at a stopped consumer (capacity 4 and 100); file opens, reads and writes are scheduling points; oracle against the offset at which the follow began (observed at its Seek): delivered lines are exactly / a subsequence of the complete " +
+			"receives at the end, optional 150 ms writer pause; two followed files delivering into one shared queue (capacity 1, 2, 100); a whole tail session whose file is rotated (truncated in place / renamed and re-created) 1, 5 or 7 s into the follow, lines appended 8 s later; one follow across 12 rotations; a 12 s follow without rotation (a line every 700 ms) of the file itself, of a symbolic link to it, of a chain of two links and of a relative link; plus (canonical schedule) histories of 30..450 delivered lines followed by 1 or 3 lines dropped at a stopped consumer (capacity 4 and 100); file opens, reads and writes are scheduling points; oracle against the offset at which the follow began (observed at its Seek): delivered lines are exactly / a subsequence of the complete " +
 			"lines appended after that offset, unmodified and in order, nothing older, a gap only with a full queue and then the next delivered line has TransmittedPerc < 100",
 		Assumptions: []string{
 			"truncation and rotation of the followed file only in the dedicated rotation scenarios, whose oracle is limited to lines appended 8 s or more after the rotation (the follower notices a rotation at its next 3 s check and re-opens 2 s later; lines appended in between are outside the statement)",
@@ -608,6 +702,11 @@ func init() {
 			c04Rotation(c)
 			if c.Shard == 0 {
 				c04ManyRotations(c)
+			}
+			if c.Shard == 1%c.NShards {
+				sub := *c // (one execution per scenario: not sharded any further)
+				sub.Shard, sub.NShards = 0, 1
+				c04LongFollow(&sub)
 			}
 			ps, d := c04ParamSets(c.Tier)
 			if c.Thorough() {
